@@ -256,6 +256,13 @@ func (u *Universe) RunTrie(behaviours [][]int, alphabet []Op, R int, tw *TraceWr
 						r.App.LastSaved = time.Now() // timer just restarted: this replica does not save
 					}
 				}
+				if MempoolSkew && o.Op == "tx" && ri%4 == 3 {
+					// a node whose mempool was ALSO offered a crafted transaction: the 65 signature
+					// bytes of the transaction about to be delivered in front of another payload (the
+					// signature does not cover it, CheckTx refuses it); nothing a node only saw in its
+					// mempool may influence how it executes the block
+					u.offerCrafted(r, tx)
+				}
 				if MempoolSkew && o.Op == "tx" && ri%2 == 1 {
 					u.Exec(r, "chk", tx)
 				}
